@@ -367,6 +367,9 @@ type decision struct {
 	taken   bool
 	flipped bool
 	site    string
+	conc    bool   // created by concretise: cand is the candidate value tried
+	cand    uint64
+	concOf  *Term
 }
 
 type trailEntry struct {
@@ -526,18 +529,19 @@ func (x *Explorer) concretise(t *Term, what string) uint64 {
 			panic(pathAbort{"concretise-limit"})
 		}
 		var cand uint64
-		if x.idx < len(x.prefix) {
-			d := x.prefix[x.idx]
-			if d.cond.Op == OpEq && d.cond.A == t && d.cond.B.IsConst() {
-				cand = d.cond.B.Val
-			} else {
-				cand = Eval(t, x.model)
-			}
+		if x.idx < len(x.prefix) && x.prefix[x.idx].conc && x.prefix[x.idx].concOf == t {
+			cand = x.prefix[x.idx].cand
 		} else {
 			cand = Eval(t, x.model)
 		}
 		c := TEq(t, TConst(t.W, cand))
-		if x.decide(c, what) {
+		n0 := len(x.prefix)
+		r := x.decide(c, what)
+		if len(x.prefix) > n0 {
+			d := &x.prefix[len(x.prefix)-1]
+			d.conc, d.cand, d.concOf = true, cand, t
+		}
+		if r {
 			return cand
 		}
 	}
